@@ -143,7 +143,8 @@ Theorem reconstruct_hosts_updated :
 Proof. exact plan_hosts. Qed.
 Print Assumptions reconstruct_hosts_updated.
 
-(* [REFUTED] rs_read_equals_replicated at full strength is FALSE on the model of the code as it is, finding F15:
+(* [REFUTED] rs_read_equals_replicated at full strength is FALSE on the model of the code BEFORE fix commit e1cfae8
+   (variant fx = false, request clipped to min(len, RS.Length)), finding F15, now fixed in the repository:
    one RS 6+3 stripe, a 100-byte last tract, ReadAt off 90 len 20 gives 10 bytes and EOF replicated but 20 bytes
    and no error through the erasure-coded location *)
 Theorem rs_read_equals_replicated_refuted :
@@ -154,8 +155,9 @@ Theorem rs_read_equals_replicated_refuted :
 Proof. exact rs_read_refuted_lemma. Qed.
 Print Assumptions rs_read_equals_replicated_refuted.
 
-(* [REFUTED] a zero-length packed tract read through client-side reconstruction returns an error on the model of the
-   code as it is, while the replicated read returns 0 bytes and EOF, finding F15b *)
+(* [REFUTED] on the model of the code BEFORE fix commit e1cfae8 (variant fx = false) a zero-length packed tract read
+   through client-side reconstruction returns an error, while the replicated read returns 0 bytes and EOF, finding
+   F15b, now fixed in the repository by the same commit *)
 Theorem rs_read_zero_length_reconstruct_refuted :
   exists s blob off len fail,
     read_at false s false [] [] blob off len = (0%N, 1%N, []) /\
@@ -163,7 +165,8 @@ Theorem rs_read_zero_length_reconstruct_refuted :
 Proof. exact rs_read_zero_length_refuted_lemma. Qed.
 Print Assumptions rs_read_zero_length_reconstruct_refuted.
 
-(* [FULL] rs_read_equals_replicated_at_tract_start, the code as it is with exactly the F15 case carved out: for every
+(* [FULL] rs_read_equals_replicated_at_tract_start, about the code BEFORE fix commit e1cfae8 (variant fx = false) with
+   exactly the F15 case carved out; kept as the record of what held before the repair: for every
    tract placed by an accepted layout in a data piece of a stripe of a configured class, whenever the direct piece is
    available, the read through the erasure-coded location returns exactly what the replicated tract returns, count,
    EOF flag, bytes and zero padding, for every length when the in-tract offset is 0, and also for every offset when
@@ -177,7 +180,8 @@ Theorem rs_read_equals_replicated_at_tract_start :
 Proof. exact read_rs_direct_eq. Qed.
 Print Assumptions rs_read_equals_replicated_at_tract_start.
 
-(* [FULL] the same carved-out equality when the direct piece is unavailable, the code as it is: if at least n of the
+(* [FULL] the same carved-out equality when the direct piece is unavailable, the code BEFORE fix commit e1cfae8
+   (variant fx = false): if at least n of the
    other pieces answer (any n of them, in any arrival order, the model takes the first n good ones) the client
    rebuilds the window and returns exactly what the replicated tract returns, for non-empty tracts and requests with
    in-tract offset 0 or a range ending inside the tract *)
@@ -197,7 +201,8 @@ Theorem rs_read_reconstruct_equals_replicated :
 Proof. exact read_rs_reconstruct_eq. Qed.
 Print Assumptions rs_read_reconstruct_equals_replicated.
 
-(* [FULL] rs_read_equals_replicated on the tree with fixes/F15-rs-read-clip-to-tract.patch applied, direct path: for
+(* [FULL] rs_read_equals_replicated on the CURRENT code (variant fx = true, the repository since fix commit e1cfae8,
+   which is what run_case models and the correspondence check validates), direct path: for
    EVERY in-tract offset and every non-empty request the read through the erasure-coded location returns exactly
    what the replicated tract returns *)
 Theorem rs_read_equals_replicated_fixed :
@@ -209,9 +214,9 @@ Theorem rs_read_equals_replicated_fixed :
 Proof. exact read_rs_direct_eq_fixed. Qed.
 Print Assumptions rs_read_equals_replicated_fixed.
 
-(* [FULL] the patched tree, reconstruction path: for every offset inside the tract and every non-empty request, if at
+(* [FULL] the CURRENT code (fx = true), reconstruction path: for every offset inside the tract and every non-empty request, if at
    least n other pieces answer, the rebuilt read equals the replicated read. Offsets at or beyond the end of the
-   tract, including zero-length tracts, never reach this path on the patched tree and are covered by the previous
+   tract, including zero-length tracts, never reach this path on the current code and are covered by the previous
    theorem's local answer *)
 Theorem rs_read_reconstruct_equals_replicated_fixed :
   forall s k j e tr, wf_read s k j e tr ->
@@ -229,7 +234,8 @@ Theorem rs_read_reconstruct_equals_replicated_fixed :
 Proof. exact read_rs_reconstruct_eq_fixed. Qed.
 Print Assumptions rs_read_reconstruct_equals_replicated_fixed.
 
-(* [FULL] client_reconstruct_fail_closed: on either tree, when the direct piece is unavailable and fewer than n of the
+(* [FULL] client_reconstruct_fail_closed: on either variant (current code fx = true, pre-fix code fx = false), whether
+   the pieces are missing because their tractserver fails or because the curator has no address for them (blank), when the direct piece is unavailable and fewer than n of the
    other pieces give a full answer, the read of that tract is an error and carries no bytes *)
 Theorem client_reconstruct_fail_closed :
   forall s k j e tr, wf_read s k j e tr ->
@@ -248,7 +254,7 @@ Theorem client_reconstruct_fail_closed :
 Proof. exact read_rs_fail_closed. Qed.
 Print Assumptions client_reconstruct_fail_closed.
 
-(* [FULL] rs_read_equals_replicated at the level of Blob.ReadAt, on the tree with the F15 patch: for every blob whose
+(* [FULL] rs_read_equals_replicated at the level of Blob.ReadAt, on the CURRENT code (fx = true, since fix e1cfae8): for every blob whose
    packed tracts are well placed with their direct piece reachable, every offset and every length, including ranges
    that span several tracts, holes and the end of the blob, reading through the erasure-coded locations returns
    exactly the count, error class and bytes that reading the replicated tracts returns *)
